@@ -480,12 +480,15 @@ class SpecEval(object):
                 sv = SV(INT, j)
             elif kind == 'refs':
                 jv = j
-                sv = SV(Ref(it.args[0].value), j)
+                sv = SV(Ref(it.args[0].value if isinstance(it.args[0], ast.Constant) else it.args[0].id), j)
             else:
                 jv = z3.Real(fresh_name(g.target.id))
                 sv = mk_float(jv)
             c2 = ctx.bind(g.target.id, sv)
             guard = z3.BoolVal(True)
+            if kind == 'refs':
+                # objects of the class (or a subclass) that are allocated in the state the formula is read in
+                guard = z3.And(j > 0, j < ctx.st.alloc, ctx.st.tag_fact(sv))
             conds = [self.as_bool(self.ev(c, c2), c2) for c in g.ifs]
             body = self.as_bool(self.ev(gen_node.elt, c2), c2)
             if universal:
